@@ -131,6 +131,11 @@ package elasticsearch
 // `pure` at this call says that nothing this callback reads afterwards - the table,
 // the counter, the plugin - is touched by it: an assumption by reading, listed.)
 
+// A failed send is reported as success (no retry, no error callback, batch committed)
+// only for the two statuses upstream calls non-retryable, 400 and 413 (that mapping is
+// itself an OPEN finding of C09); every other failure - 429, 5xx, a transport error -
+// is returned to the retry loop.
+
 //@ func (*Plugin).out
 //@   option allow-exit yes
 //@   ghost s0 int
@@ -138,6 +143,7 @@ package elasticsearch
 //@   assume at "p.sendSplit(" s0 == data.begin[0]
 //@   requires p.config.BatchSize_ >= 0 && p.config.BatchSize_ * p.avgEventSize >= 0
 //@   requires workerData != nil && (isnil(*workerData) || typeis(*workerData, "*github.com/ozontech/file.d/plugin/output/elasticsearch.data"))
+//@   ensures isnil(result) && !isnil(err) ==> statusCode == 400 || statusCode == 413
 //@   callee ForEach(cb)
 //@     requires data != nil && len(data.begin) == 0 && eventsCount == 0 && len(data.outBuf) == 0
 //@     ensures data != nil && len(data.begin) == eventsCount && eventsCount >= 0
